@@ -363,6 +363,9 @@ class Report:
         wall = time.time() - self.t0
         os.makedirs(os.path.join(OUTDIR, "evidence"), exist_ok=True)
         os.makedirs(os.path.join(OUTDIR, "replays"), exist_ok=True)
+        for old in os.listdir(os.path.join(OUTDIR, "replays")):         # the violation files of earlier runs of this check
+            if old.startswith(pid + "_"):
+                os.remove(os.path.join(OUTDIR, "replays", old))
         for key in sorted(self.known_seen):
             print("KNOWN-FINDING: property=%s %s %s (seen %d times; e.g. %s)" % (
                 pid, key, self.open[key].get("what", ""), self.known_seen[key],
